@@ -8,6 +8,7 @@ import (
 	"fmt"
 	"strings"
 	"sync"
+	"sync/atomic"
 	"testing"
 	"time"
 
@@ -33,6 +34,7 @@ type c01Case struct {
 	Keys    int       `json:"keys"`
 	Fillers int       `json:"fillers"`
 	YieldUs int       `json:"yield_us,omitempty"`
+	Janitor bool      `json:"janitor,omitempty"` // the empty-fragment janitor runs between "fragment loaded" and "fragment locked" of every write
 	Clients [][]c01Op `json:"clients"`
 }
 
@@ -75,6 +77,7 @@ func genC01(t *rapid.T, shape string) *c01Case {
 		}
 		return op
 	}
+	c.Janitor = rapid.IntRange(0, 2).Draw(t, "janitor") == 0
 	if shape == "seq" {
 		n := rapid.IntRange(20, 80).Draw(t, "steps")
 		var ops []c01Op
@@ -110,7 +113,10 @@ func c01Value(client, seq int, op c01Op, tableSize int) []byte {
 	return []byte(v)
 }
 
+var c01JanitorBudget int64
+
 func c01Exec(ctx context.Context, cl *vCluster, name string, keys, fillers []string, client, seq int, op c01Op, tableSize int) c01Event {
+	atomic.StoreInt64(&c01JanitorBudget, 1)
 	pc := &pathClient{cl: cl, dmap: name, path: op.Path, pick: op.Pick}
 	ev := c01Event{Client: client, Kind: op.Kind, Path: op.Path}
 	switch op.Kind {
@@ -219,6 +225,32 @@ func runC01(c *c01Case) (v *vcommon.Violation, labels []string, nontrivial, inco
 		return ok && st.NumTables >= 2
 	}
 
+	if c.Janitor {
+		// a janitor pass at the worst moment: after a writer obtained the fragment, before it locked it
+		h := func(args ...string) {
+			// one pass per client operation: a pass on every retry would wipe the fresh, still empty
+			// fragment again and again (the real janitor runs periodically)
+			if atomic.AddInt64(&c01JanitorBudget, -1) < 0 {
+				return
+			}
+			if len(args) > 0 {
+				if m := cl.byName(args[0]); m != nil {
+					// like the real janitor the pass runs in its own goroutine: it may have to wait for fragment
+					// locks held by requests that in turn wait for this one (replication), so do not wait for long
+					done := make(chan struct{})
+					go func() { m.db.dmap.VerifJanitor(); close(done) }()
+					select {
+					case <-done:
+					case <-time.After(5 * time.Millisecond):
+					}
+				}
+			}
+		}
+		verifhook.Set("put.fragmentLoaded", h) // before the fragment is looked up
+		verifhook.Set("fragment.loaded", h)    // between looking it up and locking it
+		defer verifhook.Set("put.fragmentLoaded", nil)
+		defer verifhook.Set("fragment.loaded", nil)
+	}
 	if c.Shape == "seq" {
 		model := map[string]string{}
 		var hist []c01Event
